@@ -719,12 +719,16 @@ class Exec:
                     memo[v.id] = o
                     o.attrs = {a: cp(x) for a, x in v.attrs.items()}
                 return memo[v.id]
+            if hasattr(v, "fork_copy"):
+                if id(v) not in memo:
+                    memo[id(v)] = v.fork_copy()
+                return memo[id(v)]
             if isinstance(v, list):
                 return [cp(x) for x in v]
             if isinstance(v, dict):
                 return {a: cp(x) for a, x in v.items()}
             return v
-        return {kk: (cp(v) if isinstance(v, (Obj, list, dict)) else v) for kk, v in env.items()}
+        return {kk: (cp(v) if isinstance(v, (Obj, list, dict)) or hasattr(v, "fork_copy") else v) for kk, v in env.items()}
 
     def loop_key(self, s):
         return (self.cur_fn[-1] if self.cur_fn else None, type(s).__name__.lower(), self.loop_ordinal(s))
@@ -801,7 +805,8 @@ class Exec:
         if isinstance(it, (dict, set)) or type(it).__name__ in ("dict_values", "dict_keys", "dict_items"):
             it = list(it)
         # concrete iteration: unroll
-        if isinstance(it, (list, tuple)) and not (it and it[0] == "range" and len(it) == 2 and not pyint(it[1])):
+        if isinstance(it, (list, tuple)) and not (it and it[0] == "range" and len(it) == 2 and not pyint(it[1])) \
+                and not (isinstance(it, tuple) and it and it[0] in ("zip", "enumerate")):
             seq = it
             if it and it[0] == "range":
                 seq = list(range(it[1]))
@@ -814,7 +819,7 @@ class Exec:
         if spec is not None and "handler" in spec:
             spec["handler"](self, s, it, env, path)
             return self.block(rest, env, path, outs, k)
-        if it and isinstance(it, tuple) and it[0] == "range":
+        if it and isinstance(it, tuple) and it[0] == "range" and len(it) == 2:
             self.map_loop(s, it[1], env, path)
             return self.block(rest, env, path, outs, k)
         raise Unsupported(f"for loop over symbolic iterable without a handler {key}")
@@ -1147,7 +1152,7 @@ class Exec:
         if isinstance(a, Obj) and isinstance(b, Obj) and a.cls == b.cls and set(a.attrs) == set(b.attrs):
             return Obj(a.cls, **{k_: self.merge_vals(c, a.attrs[k_], b.attrs[k_]) for k_ in a.attrs})
         if isinstance(a, (EnumVal, str, type(None))) or isinstance(b, (EnumVal, str, type(None))):
-            if a == b:
+            if type(a) is type(b) and a == b:
                 return a
             raise Unsupported("merge of distinct non-numeric values")
         return lift(lambda x, y: ite(c, x, y), a, b)
@@ -1258,7 +1263,7 @@ class Exec:
                 if getattr(fn, "is_property", False):
                     return fn(self, path, b)
                 return ("bound", key, b)
-        if isinstance(b, (list, dict, str, set, tuple)) and hasattr(b, attr):
+        if (isinstance(b, (list, dict, str, set, tuple)) or hasattr(b, "fork_copy")) and hasattr(b, attr):
             return ("pymethod", b, attr)
         raise Unsupported("attr " + (dotted or attr))
 
@@ -1748,6 +1753,11 @@ class Exec:
                     H = norm(hi, n)
                     if pyint(L) and pyint(H):
                         size = max(H - L, 0)
+                    elif not pyint(n) and ((lo is None and pyint(hi) and hi < 0) or (hi is None and pyint(lo) and lo > 0)):
+                        # a[:-k] and a[k:] : canonical size term max(n-k, 0) (so that the two views broadcast against each other)
+                        kk = -hi if lo is None else lo
+                        size = If(toI(n) >= kk, toI(n) - kk, IntVal(0))
+                        L = 0 if lo is None else kk
                     else:
                         d = toI(H) - toI(L)
                         size = simplify(If(d >= 0, d, IntVal(0)))
